@@ -381,3 +381,26 @@ Proof.
              end; try discriminate; subst; try reflexivity;
       try (inversion H; subst; split; [reflexivity|]; tauto).
 Qed.
+
+(* ------------------------------------------------------------------ index_variadic is in range *)
+Lemma parse_tokens_iv : forall toks index iv dl ivf,
+  parse_tokens toks index iv = Ok (dl, ivf) ->
+  forall i, ivf = Some i -> iv = Some i \/ (index <= i < index + length dl)%nat.
+Proof.
+  induction toks as [|e r IH]; intros index iv dl ivf H i Hi; cbn in H.
+  - inversion H; subst. left. reflexivity.
+  - destruct (parse_token e) as [t|c]; [|discriminate].
+    destruct (build_dim _ t) as [d|c]; [|discriminate].
+    destruct (parse_tokens r (S index) (if is_variadic d then Some index else iv)) as [[dl' ivf']|c] eqn:E; [|discriminate].
+    inversion H; subst. cbn [length].
+    destruct (IH _ _ _ _ E i eq_refl) as [Hl|Hr].
+    + destruct (is_variadic d); [inversion Hl; subst; right; lia | left; assumption].
+    + right. lia.
+Qed.
+
+Theorem parse_dims_ivar_in_range s d : parse_dims s = Ok d -> forall i, ivar d = Some i -> (i < length (ds d))%nat.
+Proof.
+  unfold parse_dims. destruct (parse_tokens (split_ws s) 0 None) as [[dl iv]|c] eqn:E; [|discriminate].
+  intros H i Hi. inversion H; subst. cbn in *.
+  destruct (parse_tokens_iv _ _ _ _ _ E i Hi) as [Hc|Hr]; [discriminate | lia].
+Qed.
